@@ -320,9 +320,16 @@ Proof.
     cbn [bound_ok str_mem]. rewrite String.eqb_refl, !orb_true_r. reflexivity.
   - destruct ca; apply (Hd [it]); reflexivity.
   - destruct ca; apply (Hd []); reflexivity.
-  - destruct r, ca; cbn [app join].
-Show.
-  admit. admit. admit. admit.
+  - assert (Hs : forall r0, scan (core_ref r0 ++ pc "<" :: TId "dyn" :: twa ++ [pc ">"]) 0 = Some 0).
+    { intros r0. rewrite scan_app. replace (scan (core_ref r0) 0) with (Some 0) by (destruct r0; reflexivity).
+      change (scan (pc "<" :: TId "dyn" :: twa ++ [pc ">"]) 0) with (scan (twa ++ [pc ">"]) 1).
+      rewrite scan_app. unfold twa. rewrite scan_twa. reflexivity. }
+    assert (Hn : forall r0, noplus (core_ref r0 ++ pc "<" :: TId "dyn" :: twa ++ [pc ">"]) = true).
+    { intros r0. rewrite noplus_app. replace (noplus (core_ref r0)) with true by (destruct r0; reflexivity).
+      change (noplus (pc "<" :: TId "dyn" :: twa ++ [pc ">"])) with (noplus (twa ++ [pc ">"])).
+      rewrite noplus_app. unfold twa. rewrite noplus_twa. reflexivity. }
+    destruct r, ca; cbn [app join];
+      (apply (c19_shape [name] (core_ref _ ++ pc "<" :: TId "dyn" :: twa ++ [pc ">"])); [apply Hs | reflexivity | apply Hn | reflexivity | reflexivity]).
   - destruct ca; apply (Hd [del]); reflexivity.
   - destruct ca; apply (Hd []); reflexivity.
-Admitted.
+Qed.
